@@ -19,6 +19,7 @@ Obj(fs) == [k |-> "obj", fields |-> fs]
 Keys == IF Pools = "full" THEN {A, AB, A1, Bk} ELSE {A, AB, A1}
 Vals == IF Pools = "full"
           THEN { Str(<<120>>), Str(<<>>), Str(<<120, 32, 121>>), Str(<<34>>), Num(<<55>>), Num(<<45, 49>>), Num(<<49, 46, 53>>), [k |-> "bool", b |-> TRUE],
+                 Num(<<57, 48, 48, 55, 49, 57, 57, 50, 53, 52, 55, 52, 48, 57, 57, 51>>),      \* 9007199254740993 = 2^53 + 1: not a float64
                  [k |-> "null"], Obj(<< <<Bk, Str(<<121>>)>> >>), [k |-> "arr", items |-> <<Num(<<49>>), Str(<<122>>)>>] }
           ELSE { Str(<<120>>), Str(<<34>>), Num(<<55>>), [k |-> "null"], Obj(<< <<Bk, Str(<<121>>)>> >>), [k |-> "arr", items |-> <<Num(<<49>>)>>] }
 LBL(n) == <<108, 48 + n>>
